@@ -19,6 +19,11 @@ impl<'a, 'b> Gen<'a, 'b> {
                 let s = *self.t.pick(&["0", "1", "7", "42", "1_000", "0_1", "255", "4294967295"]);
                 self.num(s);
             }
+            1 if self.t.flip() => {
+                self.tag("literal-composed");
+                let s = self.composed_based_literal();
+                self.num(&s);
+            }
             1 => {
                 // based literal as one token
                 let s = *self.t.pick(&[
@@ -37,7 +42,9 @@ impl<'a, 'b> Gen<'a, 'b> {
                     2 => ("'o", &["17", "x", "7_7", "z"]),
                     _ => ("'d", &["15", "x", "z", "1_5", "?"]),
                 };
-                let d = *self.t.pick(digits);
+                let d_fixed = *self.t.pick(digits);
+                let d_owned = if self.t.flip() { self.based_digits(base.chars().nth(1).unwrap()) } else { d_fixed.to_string() };
+                let d = d_owned.as_str();
                 let base = if self.t.chance(1, 4) { base.replace('\'', "'s") } else { base.to_string() };
                 let base = if self.t.chance(1, 4) { base.to_uppercase() } else { base };
                 if self.t.chance(3, 4) {
@@ -65,6 +72,52 @@ impl<'a, 'b> Gen<'a, 'b> {
                 }
             }
         }
+    }
+
+    /// digits of a based literal composed from the base's alphabet: first a digit, then digits / underscores
+    /// (A.8.7: binary_value ::= binary_digit { _ | binary_digit }, …; decimal: unsigned_number or ONE x/z digit { _ })
+    pub fn based_digits(&mut self, base: char) -> String {
+        let alphabet: &[&str] = match base {
+            'b' => &["0", "1", "x", "z", "X", "Z", "?"],
+            'o' => &["0", "3", "7", "x", "z", "?", "X"],
+            'h' => &["0", "9", "a", "F", "c", "x", "Z", "?"],
+            _ => &["0", "1", "5", "9"],
+        };
+        if base == 'd' && self.t.chance(1, 3) {
+            // a single x / z digit followed by underscores
+            let mut s = self.t.pick_str(&["x", "X", "z", "Z", "?"]).to_string();
+            let n = self.t.weighted(&[3, 2, 1]);
+            for _ in 0..n {
+                s.push('_');
+            }
+            return s;
+        }
+        let mut s = self.t.pick_str(alphabet).to_string();
+        let n = self.t.below(5);
+        for _ in 0..n {
+            if self.t.chance(1, 4) {
+                s.push('_');
+            } else {
+                s.push_str(self.t.pick_str(alphabet));
+            }
+        }
+        s
+    }
+
+    /// [size] base digits as one token, composed (not from a fixed list)
+    pub fn composed_based_literal(&mut self) -> String {
+        let mut s = String::new();
+        if self.t.chance(2, 3) {
+            s.push_str(self.t.pick_str(&["1", "4", "8", "16", "3_2", "1_0_0"]));
+        }
+        let base = *self.t.pick(&['b', 'o', 'h', 'd']);
+        s.push('\'');
+        if self.t.chance(1, 4) {
+            s.push(if self.t.flip() { 's' } else { 'S' });
+        }
+        s.push(if self.t.chance(1, 4) { base.to_ascii_uppercase() } else { base });
+        s.push_str(&self.based_digits(base));
+        s
     }
 
     pub fn string_lit(&mut self) {
